@@ -64,14 +64,15 @@ impl Polygon {
     /// Vértices del lado que empieza en el vértice con el nombre indicdo (Vnn)
     /// El lado que empieza en el último vértice continua en el vértice inicial
     pub fn edge_vertices(&self, vertexname: &str) -> Option<[&Point2; 2]> {
+        // Nombre de vértice desconocido (p.e. TOP, BOTTOM) o fuera del polígono -> None
         let num_vertex: usize = vertexname
-            .strip_prefix('V')
-            .map_or_else(
-                || panic!("Vértice {} desconocido de polígono", vertexname),
-                str::parse::<usize>,
-            )
+            .strip_prefix('V')?
+            .parse::<usize>()
             .ok()?
-            - 1;
+            .checked_sub(1)?;
+        if num_vertex >= self.0.len() {
+            return None;
+        }
         Some([
             &self.0[num_vertex],
             &self.0[(num_vertex + 1) % self.0.len()],
